@@ -134,8 +134,14 @@ def main():
                 pairs = [[x if isinstance(x, (int, float)) and not isinstance(x, bool) else emb.rv(x), emb.rk(y)] for x, y in list(res)]
                 return ['x', 'list' if isinstance(res, list) else 'not-a-list', pairs]
             if op == 'x-index':
-                s = t.keys()
-                return ['x', emb.rk(s[k % max(1, len(s))]), emb.rk(s[-1])]
+                # one lazy sequence indexed several times, so that its search finger moves both ways over the leaves
+                s = t.keys() if is_set or v % 2 else t.items()
+                n_ = max(1, len(s))
+                out_ = []
+                for j in (k % n_, n_ - 1, (k * 7) % n_, 0, (k * 3 + 1) % n_, -1, (k * 5) % n_, 1 % n_, -n_):
+                    x = s[j]
+                    out_.append(emb.rk(x if is_set or v % 2 else x[0]))
+                return ['x'] + out_
         except KeyError:
             return ['KeyError']
         except TypeError:
